@@ -160,7 +160,9 @@ class Check:
         # --- specification-level check
         if spec_relation and oracle is not None and not impl.get("nomodel"):
             o = run.norm(oracle)
-            if o[0] == "OK" and i[0] == "OK":
+            if o[0] == "OK" and i[0] == "OK" and "u" in case["mode"]:
+                pass      # the self-loop-free variant has its own semantics: compared with the model only
+            elif o[0] == "OK" and i[0] == "OK":
                 want = o[1].split(",")
                 got = i[1].split(",")
                 if "s" not in case["mode"]:
